@@ -1,5 +1,6 @@
 #!/bin/bash
 # run every thorough check once (for timing / smoke), on a private repository copy when started by `vp run --with-repo`
+export VERIF_EVIDENCE_DIR=${VERIF_EVIDENCE_DIR:-/verif/.work/evidence-scratch}   # never overwrite the committed evidence
 [ -n "${VP_RUN_REPO:-}" ] && export VERIF_REPO=$VP_RUN_REPO
 cd "$(dirname "$0")/.."
 for c in ${@:-C17 C15 C09 C16 C10 C14 C12 C11 C05 C13 C06 C08 C07 C03 C02 C01 C04 C18}; do
